@@ -93,7 +93,16 @@ impl Value for GenMetric<'_> {
             return writer.error(metrique_writer_core::ValidationError::invalid("the value says it is invalid"));
         }
         let dims: Vec<(&str, &str)> = self.dims.iter().filter_map(|d| d.as_array()).filter(|a| a.len() == 2).map(|a| (a[0].as_str().unwrap_or(""), a[1].as_str().unwrap_or(""))).collect();
-        writer.metric(self.obs.iter().map(obs_of), unit_of(self.unit), dims, MetricFlags::empty());
+        // {"t":"range","from":f,"n":n}: n distinct unsigned observations f, f+1, ... (a metric whose record is huge)
+        let all = self.obs.iter().flat_map(|o| -> Box<dyn Iterator<Item = Observation> + '_> {
+            if js(o, "t", "") == "range" {
+                let from = ju(o, "from", 0);
+                Box::new((0..ju(o, "n", 0)).map(move |i| Observation::Unsigned(from + i)))
+            } else {
+                Box::new(std::iter::once_with(move || obs_of(o)))
+            }
+        });
+        writer.metric(all, unit_of(self.unit), dims, MetricFlags::empty());
     }
 }
 
@@ -600,9 +609,28 @@ impl Scenario for EmfWriterFaults {
     }
     fn generate(&self, rng: &mut Rng, _tier: Tier) -> J {
         let cfg = gen_config(rng);
-        let entry = gen_entry(rng, &cfg, false, false);
+        let mut entry = gen_entry(rng, &cfg, false, false);
         let rate = if jb(&cfg, "sampled", false) { json!([*rng.pick(&[1.0, 0.5, 0.3, 0.01]), rng.next_u64()]) } else { J::Null };
-        json!({"sched": {"seed": rng.next_u64() >> 1}, "config": cfg, "entry": entry, "sample": rate, "random_mixtures": 8, "mix_seed": rng.next_u64() >> 1, "glue": *rng.pick(&["direct", "direct", "output_to", "makewriter"])})
+        let seed = rng.next_u64() >> 1;
+        // One plan in forty: a split entry one of whose records is huge (1 - 2.5 MB: a metric with 10^5+ distinct
+        // observations), either the record without per-metric dimensions (written last) or one with them, next to small
+        // records. Only a small set of fault scripts is run for it (`big_line`).
+        let hb = mix(seed, 0xb16);
+        let big = hb % 40 == 0;
+        if big {
+            if let Some(items) = entry.get_mut("items").and_then(|i| i.as_array_mut()) {
+                if !items.iter().any(|i| js(i, "k", "") == "split") {
+                    items.insert(1, json!({"k":"split"}));
+                }
+                let n = 120_000 + (hb / 40) % 200_000;
+                let big_dims = if (hb / 80) % 3 == 0 { json!([["shard", "sbig"]]) } else { json!([]) };
+                items.push(json!({"k":"metric","name":"Big","obs":[{"t":"range","from":1_000_000,"n":n}],"unit":1,"dims":big_dims,"flag":0}));
+                items.push(json!({"k":"metric","name":"SmallA","obs":[{"t":"u","v":7}],"unit":1,"dims":[["shard","sa"]],"flag":0}));
+                items.push(json!({"k":"metric","name":"SmallB","obs":[{"t":"u","v":8}],"unit":1,"dims":[["shard","sb"]],"flag":0}));
+                items.push(json!({"k":"metric","name":"SmallC","obs":[{"t":"u","v":9}],"unit":1,"dims":[],"flag":0}));
+            }
+        }
+        json!({"sched": {"seed": seed}, "config": cfg, "entry": entry, "sample": rate, "random_mixtures": 8, "mix_seed": rng.next_u64() >> 1, "glue": *rng.pick(&["direct", "direct", "output_to", "makewriter"]), "big_line": big})
     }
     fn run(&self, plan: &J) -> Report {
         let mut r = Report::default();
@@ -668,7 +696,16 @@ impl Scenario for EmfWriterFaults {
             if res.is_err() {
                 let again = f.call(sampled, &entry, &cell);
                 let pw = cell.replace(FaultyWriter::perfect());
-                if again.is_err() || pw.received != expect {
+                // (the records of a split entry come out in the order of the formatter's hash table, which depends on
+                // how the table grew in earlier calls: the follow-up entry is compared as a set of complete lines)
+                let same_lines = |a: &[u8], b: &[u8]| {
+                    let mut la: Vec<&[u8]> = a.split_inclusive(|c| *c == b'\n').collect();
+                    let mut lb: Vec<&[u8]> = b.split_inclusive(|c| *c == b'\n').collect();
+                    la.sort();
+                    lb.sort();
+                    la == lb
+                };
+                if again.is_err() || (pw.received != expect && !same_lines(&pw.received, &expect)) {
                     r.violation = Some(Violation::new(
                         "io_error_affects_next_entry",
                         format!("{what}: the call failed with {}; the next entry on the same formatter then gave {} / {} bytes instead of the expected {} bytes", result_class(&res), result_class(&again), pw.received.len(), expect.len()),
@@ -706,6 +743,38 @@ impl Scenario for EmfWriterFaults {
         let mut chunks: Vec<usize> = (1..=n.min(64)).collect();
         chunks.extend([97, 128, 255, 1000].iter().filter(|c| **c < n));
         'outer: {
+            if jb(plan, "big_line", false) {
+                // a record of megabytes: whole-record writes, two large chunk sizes, a hard error / an interruption / a
+                // zero-length write at each of the first calls (with whole-record writes: at each record of the entry),
+                // a short write in the middle and at the very end
+                r.probe("record_over_1_mib", 1);
+                for (c, vectored) in [(0usize, true), (0, false), (65_536, true), (1_000_003, false)] {
+                    let mut w = FaultyWriter::perfect();
+                    w.chunk = c;
+                    w.vectored = vectored;
+                    if !run_case(w, format!("chunk={c} vectored={vectored}"), &mut r) {
+                        break 'outer;
+                    }
+                }
+                for i in 0..fault_free_calls.min(8) {
+                    for f in [WFault::Hard(io::ErrorKind::BrokenPipe), WFault::Interrupted, WFault::Zero] {
+                        let mut w = FaultyWriter::perfect();
+                        let what = format!("{f:?}@{i} chunk=0");
+                        w.at_call.insert(i, f);
+                        if !run_case(w, what, &mut r) {
+                            break 'outer;
+                        }
+                    }
+                }
+                for k in [n / 2, n - 1] {
+                    let mut w = FaultyWriter::perfect();
+                    w.short_at_offset = Some(k);
+                    if !run_case(w, format!("short_at_offset={k}"), &mut r) {
+                        break 'outer;
+                    }
+                }
+                break 'outer;
+            }
             for c in chunks {
                 for vectored in [true, false] {
                     let mut w = FaultyWriter::perfect();
@@ -1071,6 +1140,21 @@ impl Scenario for SinkFaults {
         let a = mk(rng);
         let b = mk(rng);
         let sched = gen_sched(rng, &SchedOpts { est_choices: 200, threads: threads + 1, jump_max_ns: 5_000_000_000, stall_clock_max_ns: 1_000_000_000, max_steps: 60_000 });
+        // a long outage: one tee leg rejects 40 - 140 entries per thread in a row with I/O errors (every sink kind);
+        // decided from the schedule seed, so that the other draws stay where they were
+        let ho = mix(ju(&sched, "seed", 0), 0x0a7a6e);
+        let (per, a) = if ho % 12 == 0 {
+            let per = 40 + (ho / 12) % 100;
+            let mut v = vec![];
+            for t in 1..=threads {
+                for s in 0..per {
+                    v.push(json!([t, s, "I"]));
+                }
+            }
+            (per, J::Array(v))
+        } else {
+            (per, a)
+        };
         json!({
             "sched": sched,
             "kind": *rng.pick(&["immediate_tee", "any_immediate_tee", "queue_tee", "queue_tee"]),
